@@ -13,7 +13,8 @@ CHECKS = {
                 'data set with the memory type of T, strings copied out before vlen reclaim; clearing sets extent 0; Variant keeps tag and '
                 'member in agreement and owns its C string exactly when the tag is String; unit/uncertainty/definition keys agree. Equality '
                 'of particular values (NaN, extremes, UTF-8 bytes) through libhdf5 conversion is NOT decided.'
-                ' Added: R-GETTER, R-GROW (value data sets have no fixed maximum), R-DCPL, R-MEMTYPE, R-NULL-CSTR.',
+                ' Added: R-GETTER, R-GROW (value data sets have no fixed maximum), R-DCPL, R-MEMTYPE, R-NULL-CSTR.'
+                ' Round 6: Property/Section setters hand the given value to the backend verbatim or through the tabled normaliser (R-SETVERB).',
     },
     'C15': {
         'technique': 'static analysis: cell codec table agreement (Janus copyValue/copyData vs. to_data_type<T>), def-use rule for compound '
@@ -27,7 +28,8 @@ CHECKS = {
                 '(count, offset) and marshals strings; schema name/type/unit stay on one index; unsupported types and duplicate names are refused '
                 'before anything is created; the backend is never handed a count the vector does not cover. Cell values over all write histories '
                 'and the zero/empty fill of unwritten cells are libhdf5 behaviour: NOT decided.'
-                " Added: Janus member-of-cell clause, writeCells transfers the caller's list, R-STRIO, R-DCPL, R-GROW, R-MEMTYPE, R-SWAP, R-NULL-CSTR.",
+                " Added: Janus member-of-cell clause, writeCells transfers the caller's list, R-STRIO, R-DCPL, R-GROW, R-MEMTYPE, R-SWAP, R-NULL-CSTR."
+                ' Round 6: column names and units are written and read back verbatim (R-DF-SCHEMA verbatim clause).',
     },
     'C01': {
         'technique': 'static analysis: writer/reader table agreement (DataType <-> HDF5 file/memory type, decoder, element size, to_data_type<T>) by '
@@ -41,7 +43,8 @@ CHECKS = {
                 'read(Double) -> polynomial(input - origin) -> convert(Double -> requested); the data set is created chunked with unlimited maximum '
                 'extent so growth/shrink is possible. Value equality of what libhdf5 returns (conversion of particular values, fill of grown '
                 'regions) is NOT decided.'
-                ' Added during seeding rounds: string marshalling pairs element i with element i and defines every element (R-STRIO); Compression is forwarded down to the data set creation (R-FORWARD-COMP); data set creation / access / transfer property lists carry no setting from a deny list (fill time, fill value, lossy filters) (R-DCPL); resized data sets have no fixed maximum (R-GROW); raw transfers get a memory type made from the buffer element type (R-MEMTYPE) in the right argument positions (R-ROLE, R-SWAP); backend objects cache nothing (R-NOCACHE).',
+                ' Added during seeding rounds: string marshalling pairs element i with element i and defines every element (R-STRIO); Compression is forwarded down to the data set creation (R-FORWARD-COMP); data set creation / access / transfer property lists carry no setting from a deny list (fill time, fill value, lossy filters) (R-DCPL); resized data sets have no fixed maximum (R-GROW); raw transfers get a memory type made from the buffer element type (R-MEMTYPE) in the right argument positions (R-ROLE, R-SWAP); backend objects cache nothing (R-NOCACHE).'
+                ' Round 6: every normally returning path of DataArrayHDF5::write/read performs the data set transfer (R-IOPATH).',
     },
     'C02': {
         'technique': 'static analysis: storage-key agreement rule per backend field (setter / clearing overload / getter / creating constructor / '
@@ -54,14 +57,16 @@ CHECKS = {
                 'LinkType/DimensionType/DataType codecs are bijective on what is stored and the dimension opener builds the class of the stored '
                 'kind; close releases every id then the file; no mutating HDF5 result is dropped. Equality of the whole entity tree over all '
                 'operation histories (a model comparison over runtime states) is NOT decided.'
-                " Added: optional getters report 'not set' only for an absent key (R-GETTER); const backend methods never write (R-GETPURE); lookup tables in backend objects are coherent, no member is filled lazily, optGroup never answers 'absent' from memory (R-NOCACHE); index access iterates the creation-order index increasingly (R-ORDER); file property lists carry no denied setting (R-FAPL).",
+                " Added: optional getters report 'not set' only for an absent key (R-GETTER); const backend methods never write (R-GETPURE); lookup tables in backend objects are coherent, no member is filled lazily, optGroup never answers 'absent' from memory (R-NOCACHE); index access iterates the creation-order index increasingly (R-ORDER); file property lists carry no denied setting (R-FAPL)."
+                ' Round 6: the time stamp text codec is time-zone/locale independent and parser and formatter agree (R-TIMECODEC).',
     },
     'C03': {
         'technique': 'static analysis: dominance-based validate-before-create rule over clang AST/CFG facts (custom checker)',
         'text': 'Decides a structural necessary condition of C03 on every path of every front-end create entry point: the '
                 'name (and type) is validated and a same-kind existence test on the same name leads away from the '
                 'backend create call (R-VAL). It does not decide lookup/count/order agreement for runtime histories.'
-                ' Added: a child linked under the queried name is always found before any id search (R-NAMEFIRST); backend objects keep no stale lookup tables (R-NOCACHE); name/id filter predicates compare the attribute exactly (R-FILTER).',
+                ' Added: a child linked under the queried name is always found before any id search (R-NAMEFIRST); backend objects keep no stale lookup tables (R-NOCACHE); name/id filter predicates compare the attribute exactly (R-FILTER).'
+                ' Round 6: attribute searches accept a child only under exact equality (R-ATTRSEARCH); Identity carries the given name/id verbatim (R-IDENT).',
     },
     'C10': {
         'level': 'proof',
@@ -75,7 +80,8 @@ CHECKS = {
                 'is unacceptable and throw_error; the constructor passes throw_error = !(flags & Force).',
         'note': 'Trusted base: clang 14 front end, tools/nixfacts.cc, nixsa/absint.py (the abstract interpreter), the '
                 'specification rows in nixsa/rules/r_ver.py and r_hdr.py. Assumes LocID::hasAttr/getAttr report the attribute '
-                'state faithfully (they are opaque booleans in the abstraction).',
+                'state faithfully (they are opaque booleans in the abstraction).'
+                ' Round 6: FormatVersion stores and returns its components without a value-losing integer conversion (R-VER-WIDTH).',
     },
     'C09': {
         'technique': 'static analysis: decision-table extraction + abstract interpretation (boolean abstraction, all paths) of '
@@ -87,7 +93,8 @@ CHECKS = {
                 'missing path refused before a backend exists, open path writes only what is absent, and every file-mutating HDF5 '
                 'call has its result checked so that a refusal by libhdf5 (read-only file) becomes an exception. Byte identity and '
                 'content preservation themselves are libhdf5 behaviour: not decided.'
-                ' Added: raw HDF5 ids reach their owner before anything can throw (R-HIDOWN); file property list deny list (R-FAPL); const backend methods never write (R-GETPURE); existence queries check() their result (R-ERR-EXISTS); header verdict judged by outcome only.',
+                ' Added: raw HDF5 ids reach their owner before anything can throw (R-HIDOWN); file property list deny list (R-FAPL); const backend methods never write (R-GETPURE); existence queries check() their result (R-ERR-EXISTS); header verdict judged by outcome only.'
+                ' Round 6: the front-end existence test follows symbolic links like the open call does (status vs symlink_status modelled).',
     },
     'C11': {
         'technique': 'static analysis: must-pass-through (post-dominance) and who-may-call rules on FileHDF5::flush/close and '
@@ -97,7 +104,8 @@ CHECKS = {
                 'then the file id on every path; File::close drops the backend pointer, all File members go through backend() '
                 '(throws when empty); mutating HDF5 results are checked. Durability against SIGKILL / what libhdf5 has written is a '
                 'crash-point property outside static reach: NOT decided (partial claim).'
-                " Added: R-FAPL (libver bounds / close degree), R-HIDOWN, R-ERR-EXISTS (stale handles raise instead of answering 'absent').",
+                " Added: R-FAPL (libver bounds / close degree), R-HIDOWN, R-ERR-EXISTS (stale handles raise instead of answering 'absent')."
+                ' Round 6: flush() reports success only on paths that ran H5Fflush without error (path enumeration; ReadOnly shortcut accepted).',
     },
     'C12': {
         'technique': 'static analysis: entropy-source classification of the generator chain in util::createId (def-use over static '
@@ -107,7 +115,8 @@ CHECKS = {
                 'fresh createId() to the creating constructor, entity_id/id keys are written only by creating constructors / '
                 'createHeader / forceId, and no create entry point can re-run a creating constructor on an existing entity. '
                 'Collision probability is not decided.'
-                ' Added: R-NAMEFIRST and the R-NOCACHE clauses (a duplicate test that is fooled re-runs the creating constructor on an existing entity).',
+                ' Added: R-NAMEFIRST and the R-NOCACHE clauses (a duplicate test that is fooled re-runs the creating constructor on an existing entity).'
+                ' Round 6: Identity carries the given name/id verbatim (R-IDENT); R-ATTRSEARCH.',
     },
     'C13': {
         'technique': 'static analysis: dominance/guard-fact rules at every ticks / sampling-interval sink call site, linear-form check '
@@ -130,7 +139,8 @@ CHECKS = {
                 'position->index conversion site calls getSIScaling(position unit, dimension unit) and the scaled value reaches '
                 'indexOf; tag units are sanitised and SI-checked before storage. Floating-point exactness, composition a->b->c as a '
                 'numeric identity and selection invariance are not decided.'
-                ' Added: memo-wrapper idiom with key injectivity, R-MEMO, R-PARALLEL, R-UNIT-SCALEPOS (case-sensitive unit equality).',
+                ' Added: memo-wrapper idiom with key injectivity, R-MEMO, R-PARALLEL, R-UNIT-SCALEPOS (case-sensitive unit equality).'
+                ' Round 6: the [prefix]unit grammar is unambiguous (R-UNIT-TAB).',
     },
     'C19': {
         'technique': 'static analysis: rule-table extraction from the validate overloads (level/getter/predicate/parent), channel '
@@ -141,7 +151,8 @@ CHECKS = {
                 'channels are not crossed, File::validate reaches every entity kind (features, nested sources/sections, properties) '
                 'and keeps every result, and no predicate loop lets a later element overwrite an untested verdict. The arithmetic of '
                 'the predicates themselves (isScalable, sizes) is not decided.'
-                ' Added: R-VALID-COND (a throwing getter fails the condition), isScalable specification (R-UNIT-SCALE).',
+                ' Added: R-VALID-COND (a throwing getter fails the condition), isScalable specification (R-UNIT-SCALE).'
+                ' Round 6: the unit tables behind isScalable are checked here too (R-UNIT-TAB).',
     },
     'C04': {
         'technique': 'static analysis: role table of removal sites filled from interface overriders, who-may-call and call-graph '
@@ -152,7 +163,8 @@ CHECKS = {
                 'unlink sites cannot reach removeAllLinks; only deletion roles call removeAllLinks; removeAllLinks loops until the '
                 'object has no path; handle validity = link count > 0; positions/extents/feature-data getters re-check block '
                 'membership. Bit-identity of all other entities and HDF5 link bookkeeping are not decided.'
-                " Added: raw buffers handed to C APIs were sized, not only reserved (R-RAWBUF, guards removeAllLinks' name loop); no backend object caches a resolved entity (R-NOCACHE).",
+                " Added: raw buffers handed to C APIs were sized, not only reserved (R-RAWBUF, guards removeAllLinks' name loop); no backend object caches a resolved entity (R-NOCACHE)."
+                ' Round 6: by-handle delete/remove overloads identify the entity by its id (R-BYHANDLE; found and fixed D24/D25); R-ATTRSEARCH.',
     },
     'C20': {
         'technique': 'static analysis: work-list discipline rule (insertion/removal ends resolved through helpers), guard-fact and '
@@ -175,7 +187,8 @@ CHECKS = {
                 'matching overload; per matching rule the sampled/set/data-frame helpers use ceil/floor/round with the exact-hit '
                 '+-1 adjustment, the range helper handles before-first / after-last / lower_bound adjustment as specified. The '
                 'floating-point behaviour of the epsilon test (0.1-interval rounding) is NOT decided.'
-                ' Added: PositionMatch forwarding (R-FORWARD-PM), checked upper_bound idiom, exact-hit polynomial, loop-invariance of vector overloads, stale-size rule (R-STALE).',
+                ' Added: PositionMatch forwarding (R-FORWARD-PM), checked upper_bound idiom, exact-hit polynomial, loop-invariance of vector overloads, stale-size rule (R-STALE).'
+                ' Round 6: R-POSPASS; same-typed adjacent parameters are passed in declaration order (R-SWAP).',
     },
     'C05': {
         'technique': 'static analysis: abstract interpretation (boolean abstraction, loops as one arbitrary iteration, symbolic stores) of '
@@ -185,7 +198,8 @@ CHECKS = {
                 'extent (else OutOfBounds), results reach the out-parameters, view built only after the bounds test on the same '
                 'values, feature dispatch per link type, range-pair composition. Which elements come back for given floating-point '
                 'positions and the padding extent of unspecified dimensions are numeric: NOT decided.'
-                ' Added: the RangeMatch argument is forwarded to every callee (R-FORWARD); per-dimension containers are read at one index (R-PARALLEL); no function-static memo with an incomplete key (R-MEMO); the bounds predicate positionAndExtentInData is itself checked (R-INDATA); exact-hit test of the sampled helper is the polynomial r*interval+offset-position (R-MATCH); swapped-argument rule (R-SWAP); stale-size rule (R-STALE).',
+                ' Added: the RangeMatch argument is forwarded to every callee (R-FORWARD); per-dimension containers are read at one index (R-PARALLEL); no function-static memo with an incomplete key (R-MEMO); the bounds predicate positionAndExtentInData is itself checked (R-INDATA); exact-hit test of the sampled helper is the polynomial r*interval+offset-position (R-MATCH); swapped-argument rule (R-SWAP); stale-size rule (R-STALE).'
+                ' Round 6: positionToIndex overloads delegate with the position unchanged (R-POSPASS).',
     },
     'C06': {
         'technique': 'static analysis: abstract interpretation of getOffsetAndCount(MultiTag)/taggedData/featureData (all abstract '
@@ -226,7 +240,8 @@ CHECKS = {
                 'optional groups, *max_element/front() on possibly empty ranges, unchecked subscripts on caller-owned vectors, '
                 'unguarded NDSize/NDArray element access, unguarded front-end index getters, size narrowing to element types, '
                 'buffer/count disagreement at I/O primitives, unchecked HDF5 results. Other programs / other idioms are not covered.'
-                ' Added: R-VECFILL, R-RAWBUF, R-COLIDX, R-NULL-CSTR, R-STALE, R-ERR-EXISTS.',
+                ' Added: R-VECFILL, R-RAWBUF, R-COLIDX, R-NULL-CSTR, R-STALE, R-ERR-EXISTS.'
+                ' Round 6: no library value type keeps a reference to a constructor argument outside the reviewed table (R-REFMEMBER).',
     },
 }
 
